@@ -53,20 +53,45 @@ def choicesFor (fs : FS) (maxLen : Nat) : List (Nat × Nat) :=
   (List.range (fs.pending.length + 1)).flatMap fun j => (List.range (maxLen + 1)).map fun n => (j, n)
 
 /-- first crash point `k`, journal prefix `j` and cut `n` after which the state
-    file is neither `old` nor `new` -/
-def findTorn (ops : List Op) (old : Option Bytes) (new : Bytes) : Option (Nat × Nat × Nat) :=
+    file is neither `old` nor `new`, starting from the quiescent file system `fs` -/
+def findTornFrom (fs0 : FS) (ops : List Op) (old : Option Bytes) (new : Bytes) : Option (Nat × Nat × Nat) :=
   (List.range (ops.length + 1)).findSome? fun k =>
-    let fs := (run 1 new (ops.take k) (fs0 old, {})).1
-    (choicesFor fs (new.length + 1)).findSome? fun (j, n) =>
+    let fs := (run 1 new (ops.take k) (fs0, {})).1
+    (choicesFor fs (new.length + 3)).findSome? fun (j, n) =>
       let r := (crash (uniformChoice j n) fs).read pathName
       if r = old ∨ r = some new then none else some (k, j, n)
 
 /-- first crash choice after the *complete* call list that loses the new state -/
-def findLost (ops : List Op) (old : Option Bytes) (new : Bytes) : Option (Nat × Nat) :=
-  let fs := (run 1 new ops (fs0 old, {})).1
-  (choicesFor fs (new.length + 1)).findSome? fun (j, n) =>
+def findLostFrom (fs0 : FS) (ops : List Op) (new : Bytes) : Option (Nat × Nat) :=
+  let fs := (run 1 new ops (fs0, {})).1
+  (choicesFor fs (new.length + 3)).findSome? fun (j, n) =>
     let r := (crash (uniformChoice j n) fs).read pathName
     if r = some new then none else some (j, n)
+
+def findTorn (ops : List Op) (old : Option Bytes) (new : Bytes) : Option (Nat × Nat × Nat) :=
+  findTornFrom (fs0 old) ops old new
+
+def findLost (ops : List Op) (old : Option Bytes) (new : Bytes) : Option (Nat × Nat) :=
+  findLostFrom (fs0 old) ops new
+
+/-- initial-state choice: besides the state file, a STALE TEMP FILE of an earlier
+    crashed save exists under the very name (`1`) the save under test will use,
+    with contents `stale`, completely on the disk. -/
+def fs0Stale (old : Option Bytes) (stale : Bytes) : FS :=
+  let b := fs0 old
+  { inodes := fun i => if i = b.next then ⟨stale, stale.length⟩ else b.inodes i,
+    next := b.next + 1,
+    durable := fun n => if n = 1 then some b.next else b.durable n,
+    pending := [] }
+
+/-- the stale contents tried: longer than the new state, and shorter -/
+def staleChoices (new : Bytes) : List Bytes := [new ++ [0x58, 0x58], [0x58]]
+
+def findTornStale (ops : List Op) (old : Option Bytes) (new : Bytes) : Option (Nat × Nat × Nat) :=
+  (staleChoices new).findSome? fun st => findTornFrom (fs0Stale old st) ops old new
+
+def findLostStale (ops : List Op) (old : Option Bytes) (new : Bytes) : Option (Nat × Nat) :=
+  (staleChoices new).findSome? fun st => findLostFrom (fs0Stale old st) ops new
 
 /-- verdict of the crash judge on a call list -/
 def crashVerdict (ops : List Op) (old : Option Bytes) (new : Bytes) : String :=
@@ -75,6 +100,12 @@ def crashVerdict (ops : List Op) (old : Option Bytes) (new : Bytes) : String :=
   | none =>
     match findLost ops old new with
     | some (j, n) => s!"viol:completed-save-lost-by-crash:journal-prefix-{j}:data-cut-{n}"
-    | none => "ok"
+    | none =>
+      match findTornStale ops old new with
+      | some (k, j, n) => s!"viol:stale-temp-file-leaves-neither-old-nor-new:after-{k}-calls:journal-prefix-{j}:data-cut-{n}"
+      | none =>
+        match findLostStale ops old new with
+        | some (j, n) => s!"viol:stale-temp-file-corrupts-completed-save:journal-prefix-{j}:data-cut-{n}"
+        | none => "ok"
 
 end WK.C19
